@@ -1,7 +1,7 @@
 (* C14 - AST search and read-only views return exactly the addressed value.
    Only statements, closed by `exact`, with Print Assumptions beneath each. *)
 From Coq Require Import List Arith Bool NArith.
-From SV.Ast Require Import Tree Search SearchProofs Node Refute PathRefine.
+From SV.Ast Require Import Tree Search SearchProofs Node Refute PathRefine PruneProofs.
 Import ListNotations.
 
 (* match_key compares the raw member name with the wanted key escape by escape (native/scanning.h); for every member name
@@ -95,3 +95,11 @@ Example C14_preorder_skip_nonvacuous :
   flatten_skip (skip_of [1%nat]) (TObj [([92; 117; 48; 48; 54; 49]%N, TArr [TNull; TObj []]); ([98]%N, TStr [92; 110]%N)]) 0 =
   Some ([PObjBegin; PKey [97]%N; PArrBegin; PArrEnd; PKey [98]%N; PStr [10]%N; PObjEnd], 2%nat).
 Proof. vm_compute. reflexivity. Qed.
+
+(* a skipping visitor sees the document in which every skipped container is replaced by an EMPTY container of the same kind
+   (prune), and nothing else changes: same events, same number of containers announced *)
+Theorem C14_skip_is_prune :
+  forall (skip : nat -> bool) t k,
+    flatten_skip skip t k = with_count (flatten (fst (prune skip t k))) (snd (prune skip t k)).
+Proof. exact prune_spec. Qed.
+Print Assumptions C14_skip_is_prune.
